@@ -47,7 +47,7 @@ def run_shard(spec, acc):
                gen.OPENERS['dest_moves_while_open'],
                gen.OPENERS['three_queued'], gen.OPENERS['backport'],
                gen.OPENERS['backport'], gen.OPENERS['partial_merge'],
-               gen.OPENERS['admin_branches']]
+               gen.OPENERS['admin_branches'], gen.OPENERS['batch_merge']]
     if spec['tier'] == 'quick':
         n_hist, jobs, cap = 9, 12, 600
     else:
